@@ -277,6 +277,60 @@ pub fn monitor_c05(out: &mut Out, b: &Dump, o: &Op, code: i64, a: &Dump, prev: O
     }
 }
 
+/// C07 on the vault: pending ledger = charged - transferred to the collector; all-time counters = sums of charges
+pub fn monitor_c07(out: &mut Out, b: &Dump, o: &Op, code: i64, a: &Dump, ctx: &Ctx) {
+    out.monitor_evals += 1;
+    let mut r = ctx.replay.clone();
+    r["failing_step"] = json!(ctx.step);
+    if code != 0 { if a != b { out.monitor_fail("C07", "a rejected vault operation changed balances or ledgers", r); } return; }
+    let sent = a.ab[I_COLL] as i128 - b.ab[I_COLL] as i128;
+    let d_pend = a.pend as i128 - b.pend as i128;
+    let d_all = a.allf as i128 - b.allf as i128;
+    let d_burn = a.burned as i128 - b.burned as i128;
+    if d_all < 0 || d_burn < 0 { out.monitor_fail("C07", "an all-time vault counter decreased", r.clone()); }
+    // internal identity: whatever was charged (all-time delta) is either still pending or was transferred
+    if d_pend != d_all - sent { out.monitor_fail("C07", "vault pending ledger != charged - transferred to the collector", r.clone()); }
+    match o {
+        Op::Run { script } => {
+            // independent recomputation for plain (un-nested, no Try/Fail) top-level loans
+            let mut simple = true; let mut charged: u128 = 0; let mut burned: u128 = 0;
+            for act in script { match act { Act::Loan { amount, script: inner } => {
+                    if inner.iter().all(|x| matches!(x, Act::Pay { .. } | Act::RepayQ { .. })) {
+                        charged += floor_fee(amount.u128(), b.fees.0); burned += floor_fee(amount.u128(), b.fees.2);
+                    } else { simple = false; } }
+                _ => { simple = false; } } }
+            if simple && (d_all != charged as i128 || d_burn != burned as i128) {
+                out.monitor_fail("C07", "vault all-time counters differ from the sum of floor(fee_share*loan) of the loans just completed", r.clone());
+            }
+        }
+        Op::Collect { .. } => {
+            if sent != b.pend as i128 || a.pend != 0 { out.monitor_fail("C07", "vault collection did not transfer exactly the pending amount to the collector", r.clone()); }
+            if d_all != 0 || d_burn != 0 || a.supply != b.supply { out.monitor_fail("C07", "vault collection changed a counter or the share supply", r.clone()); }
+            for i in 0..a.ab.len() { if i != I_COLL && i != I_VAULT && a.ab[i] != b.ab[i] { out.monitor_fail("C07", "vault collection moved funds of a third party", r.clone()); } }
+        }
+        Op::Deposit { .. } | Op::Withdraw { .. } | Op::Donate { .. } => {
+            if sent != 0 || d_all != 0 || d_burn != 0 { out.monitor_fail("C07", "a non-loan vault operation moved the fee ledgers or paid the collector", r.clone()); }
+        }
+        _ => {}
+    }
+}
+
+/// C14 on the vault: the Share query equals what a withdrawal of that many shares pays
+pub fn monitor_c14(out: &mut Out, b: &Dump, o: &Op, code: i64, a: &Dump, quote: Option<&Result<u128, String>>, ctx: &Ctx) {
+    if let (Op::Withdraw { u: who, amount }, Some(q)) = (o, quote) {
+        out.monitor_evals += 1;
+        let mut r = ctx.replay.clone();
+        r["failing_step"] = json!(ctx.step);
+        if code == 0 {
+            let paid = a.ab[*who] - b.ab[*who];
+            match q {
+                Ok(v) => if *v != paid { r["detail"] = json!(format!("share query {} vs paid {} for {} shares", v, paid, amount)); out.monitor_fail("C14", "vault Share query differs from what the withdrawal paid", r); },
+                Err(_) => out.monitor_fail("C14", "vault Share query failed but the withdrawal succeeded", r),
+            }
+        }
+    }
+}
+
 /// sum of (protocol, flash, burn) fees over all loans of a script tree
 fn loan_fee_sums(loans: &[(u128, u32, bool)], fees: (u128, u128, u128)) -> (Uint256, Uint256, Uint256) {
     let mut s = (Uint256::zero(), Uint256::zero(), Uint256::zero());
@@ -381,8 +435,11 @@ pub fn run_history(out: &mut Out, prop: &str, stream: &str, rng: &mut Rng, mix: 
     let mut trail: Vec<(Op, i64, Dump, Dump)> = vec![];
     let (fixed, n) = match &src { Source::Fixed(v) => (Some(v.clone()), v.len()), Source::Gen(n) => (None, *n) };
     let mut cur = d0.clone();
+    let mut quotes: Vec<Option<Result<u128, String>>> = vec![];
     for i in 0..n {
         let o = match &fixed { Some(v) => v[i].clone(), None => gen_op(rng, &cur, mix, cw20, trail.last()) };
+        // C14: the Share query issued in the same state immediately before a withdrawal
+        quotes.push(if let Op::Withdraw { amount, .. } = &o { Some(w.share(amount.u128())) } else { None });
         let code = w.exec(&o);
         let after = w.dump();
         obs.push(code.to_string());
@@ -400,6 +457,8 @@ pub fn run_history(out: &mut Out, prop: &str, stream: &str, rng: &mut Rng, mix: 
         let prev = if i > 0 { Some(&trail[i - 1]) } else { None };
         if prop == "C05" { monitor_c05(out, b, o, *code, a, prev, &ctx); }
         if prop == "C06" { monitor_c06(out, b, o, *code, a, &ctx); }
+        if prop == "C07" { monitor_c07(out, b, o, *code, a, &ctx); }
+        if prop == "C14" { monitor_c14(out, b, o, *code, a, quotes[i].as_ref(), &ctx); }
         let name = serde_json::to_value(o).ok().and_then(|v| v.as_object().and_then(|m| m.keys().next().cloned())).unwrap_or_default();
         out.count(&format!("op:{}:{}", name, match code { 0 => "ok", 2 => "disabled", 3 => "unauthorized", _ => "rejected" }));
         if *code == 0 {
